@@ -6,6 +6,7 @@ Import ListNotations.
 From YP Require Import Base.Str Term.Term Unify.Unify Lang.Ast Comp.IR Comp.CompileBody Comp.CompileClause Comp.CompileTotal
   Sem.Res Sem.RefSem Sem.IRSem Sem.ControlCorrect Sem.Machine Sem.ClauseSem Sem.ProgramCorrect Sem.SpecLemmas Sem.Fresh Sem.SldR Sem.RenameSim Sem.Main.
 From YP Require Import Unify.Rename Lang.Front Comp.Emit Comp.PyRepr Comp.CompileText Sem.SourceMain.
+From YP Require Import Lang.Lexer Lang.Cst Lang.Unquote Lang.Literals.
 
 (* the model compiler produces code for every program (it never gets stuck, whatever the nesting) *)
 Theorem C01_compile_program_total : forall p, compile_program p <> None.
@@ -113,6 +114,24 @@ Theorem C01_distinct_variables_distinct_cells : forall vars r k,
   fresh_env vars r k = (rev (combine (map pyvar vars) (map TVar (seq k (length vars)))) ++ r, k + length vars).
 Proof. exact fresh_env_cells. Qed.
 Print Assumptions C01_distinct_variables_distinct_cells.
+
+(* "every `_` is a distinct variable", at the level of the source text.  The visitor writes x<N+1> for the N-th `_` of the whole
+   text (Lang/Unquote.v anon_name; N counts over all clauses and directives).  Over one compilation the anonymous variables of
+   the program carry strictly increasing numbers (numbered: each number at most once, in textual order), different numbers are
+   different names, and no such name is the text of a VARIABLE token (a source variable starts with an upper-case letter or `_`,
+   an anonymous name with the lower-case letter x) - so a `_` can coincide neither with another `_` nor with a variable the
+   programmer wrote, whatever that variable is called (_1, _G1, X1, V_x1, ...).  The check generates such names on purpose. *)
+Theorem C01_anon_numbered : forall cst k prog k', v_program cst k = Some (prog, k') -> numbered k k' (prog_vars prog).
+Proof. exact anon_fresh. Qed.
+Print Assumptions C01_anon_numbered.
+
+Theorem C01_anon_name_injective : forall i j, anon_name i = anon_name j -> i = j.
+Proof. exact anon_name_inj. Qed.
+Print Assumptions C01_anon_name_injective.
+
+Theorem C01_anon_name_not_a_source_variable : forall i v, rule_lang R_VARIABLE v -> anon_name i <> v.
+Proof. exact anon_not_source. Qed.
+Print Assumptions C01_anon_name_not_a_source_variable.
 
 (* the call of a predicate never propagates the callee's cut *)
 Theorem C01_call_never_cuts : forall call f args c,
